@@ -39,6 +39,10 @@ type c03bCase struct {
 	Readers   []c03bReader `json:"readers"`
 	Toggle    int          `json:"toggle"` // number of read-only on/off toggles (0 none)
 	Yield     []int        `json:"yield"`  // jitter: Gosched counts cycled by every goroutine
+	// RollAge > 0: segment.max.age in nanoseconds, messages carry wall-clock
+	// timestamps, and a goroutine does what the cleaner loop does at every tick
+	// (roll the active segment when it is due) while the appender runs
+	RollAge int64 `json:"rollage,omitempty"`
 }
 
 func genC03b(t *rapid.T) c03bCase {
@@ -66,6 +70,9 @@ func genC03b(t *rapid.T) c03bCase {
 	}
 	if rapid.IntRange(0, 2).Draw(t, "toggle?") == 0 {
 		c.Toggle = rapid.IntRange(1, 6).Draw(t, "toggle")
+	}
+	if rapid.IntRange(0, 2).Draw(t, "roller?") == 0 {
+		c.RollAge = int64(rapid.SampledFrom([]int{20000, 100000, 500000}).Draw(t, "rollage"))
 	}
 	ny := rapid.IntRange(1, 6).Draw(t, "nyield")
 	for i := 0; i < ny; i++ {
@@ -96,7 +103,11 @@ func (b *c03bFail) set(f *vfutil.Failure) {
 func runC03b(c c03bCase, o *vfutil.Obs) *vfutil.Failure {
 	dir := vfutil.TempDir("c03b")
 	defer os.RemoveAll(dir)
-	l, err := openLog(dir, c.MaxSeg, nil)
+	l, err := openLog(dir, c.MaxSeg, func(op *Options) {
+		if c.RollAge > 0 {
+			op.MaxSegmentAge = time.Duration(c.RollAge)
+		}
+	})
 	if err != nil {
 		return vfutil.Failf("C03/open-error", "%v", err)
 	}
@@ -147,6 +158,9 @@ func runC03b(c c03bCase, o *vfutil.Obs) *vfutil.Failure {
 					copy(v, fmt.Sprintf("a%d-%d|", a, seq))
 					vals[i] = v
 					msgs[i] = &Message{MagicByte: 1, Value: v, Timestamp: int64(1000 + seq), LeaderEpoch: 1, Offset: -1}
+					if c.RollAge > 0 {
+						msgs[i].Timestamp = time.Now().UnixNano()
+					}
 				}
 				for {
 					offs, err := l.Append(msgs)
@@ -161,6 +175,11 @@ func runC03b(c c03bCase, o *vfutil.Obs) *vfutil.Failure {
 					}
 					recMu.Lock()
 					for i, off := range offs {
+						if recorded[off] {
+							recMu.Unlock()
+							fail.set(vfutil.Failf("C03/offset-assigned-twice", "appender %d: Append returned offset %d, which an earlier Append had been given (%d messages appended so far)", a, off, atomic.LoadInt64(&appended)))
+							return
+						}
 						values.Store(off, vals[i])
 						recorded[off] = true
 					}
@@ -176,6 +195,33 @@ func runC03b(c c03bCase, o *vfutil.Obs) *vfutil.Failure {
 		}(a)
 	}
 	go func() { awg.Wait(); close(doneWrite) }()
+	if c.RollAge > 0 {
+		// the cleaner loop's roll check, at a much higher rate than its tick
+		wg.Add(1)
+		go func() {
+			defer wg.Done()
+			k := 3
+			rolls := 0
+			for {
+				select {
+				case <-doneWrite:
+					o.Count("rolls_by_the_roller", rolls)
+					return
+				default:
+				}
+				split, err := l.splitIfDue()
+				if err != nil {
+					fail.set(vfutil.Failf("C03/split-error", "%v", err))
+					return
+				}
+				if split {
+					rolls++
+				}
+				jitter(&k)
+			}
+		}()
+		o.Label("age-based-rolls-concurrent-with-appends")
+	}
 
 	// HW advancers: two of them, as on a leader (the commit loop and the
 	// fast path of the message loop both move the HW). returnedMax is the
